@@ -579,15 +579,17 @@ def fixed_steps(rng, deep: bool, history: str) -> T.List[dict]:
     return steps
 
 
-def placement_steps(rng) -> T.List[dict]:
-    """the history every placement of the build directory gets: fresh, no-change reconfigure, wipe — each spelled
-    differently and run from a different working directory"""
+def placement_steps(rng, deep: bool) -> T.List[dict]:
+    """the history every placement of the build directory gets: fresh, no-change reconfigure, (thorough tier: wipe) —
+    each spelled differently and run from a different working directory"""
     r = lambda: rng.randint(2, 10**6)  # noqa: E731
     steps = [
         dict(kind='fresh', hashseed=0, envseed=0, treeseed=0, listseed='none', metaseed=0),
         dict(kind='reconf', hashseed=rng.randint(0, 2**32 - 1), envseed=r(), treeseed=0, listseed=r()),
         dict(kind='wipe', hashseed=rng.randint(0, 2**32 - 1), envseed=r(), treeseed=0, listseed=r()),
     ]
+    if not deep:
+        steps.pop()
     for st in steps[1:]:
         st['spell'] = rng.choice(S.SPELLINGS)
         st['cwd'] = rng.choice(S.CWDS)
@@ -705,7 +707,8 @@ def system_layer(ctx: Ctx, root0: str) -> T.Callable[[], None]:
     for n in names:
         if n.startswith('p07'):
             hist[n] = 'roundtrip'
-    for name in names:
+    # the projects with the most expensive configurations are started first
+    for name in sorted(names, key=lambda n: not os.path.exists(os.path.join(S.PROJECTS, n, S.PLAN_FILE))):
         steps = fixed_steps(rng, ctx.deep, hist[name])
         planf = os.path.join(S.PROJECTS, name, S.PLAN_FILE)
         if not ctx.deep and os.path.exists(planf):
@@ -719,7 +722,7 @@ def system_layer(ctx: Ctx, root0: str) -> T.Callable[[], None]:
         jobs.append((name, ex.submit(run_fixed, name, root0, steps, geom), {'geom': geom}))
         others = [g for g in S.GEOMETRIES if g != geom] if ctx.deep else ['intree' if geom != 'intree' else 'sibling']
         for g in others:
-            jobs.append((name, ex.submit(run_fixed, name, root0, placement_steps(rng), g), {'geom': g}))
+            jobs.append((name, ex.submit(run_fixed, name, root0, placement_steps(rng, ctx.deep), g), {'geom': g}))
     try:
         from . import projgen
         n = ctx.scale(3, 40)
